@@ -3009,7 +3009,10 @@ namespace gch
         else
         {
           // We are guaranteed to have sufficient capacity to store the elements.
-          if (InlineCapacity < get_capacity ())
+          // Note: During constant evaluation the inline storage is emulated by an allocation made
+          //       with the current allocator, which may be replaced below, so it has to be
+          //       exchanged for one made with the allocator of `other` in that case as well.
+          if (has_allocation ())
           {
 #ifdef GCH_LIB_IS_CONSTANT_EVALUATED
             ptr new_data_ptr;
